@@ -536,3 +536,133 @@ func setDiff(a, b map[string]bool) []string {
 	sort.Strings(out)
 	return out
 }
+
+// ---- package-local call graph ----
+
+// callees returns the package functions f may transfer control to, resolved through the type-checked
+// program: static callees, closures created in f (they are either called or passed on by f), function
+// constants used as values, and — for interface invokes — every package method implementing the selector
+// (class-hierarchy resolution restricted to the package's own types).
+func (w *World) callees(f *ssa.Function) []*ssa.Function {
+	var out []*ssa.Function
+	seen := map[*ssa.Function]bool{}
+	add := func(g *ssa.Function) {
+		if g != nil && w.InPkg(g) && !seen[g] {
+			seen[g] = true
+			out = append(out, g)
+		}
+	}
+	for _, b := range f.Blocks {
+		for _, in := range b.Instrs {
+			if ci, ok := in.(ssa.CallInstruction); ok {
+				cc := ci.Common()
+				if cc.IsInvoke() {
+					for _, g := range w.implementers(cc.Method) {
+						add(g)
+					}
+				} else if g := cc.StaticCallee(); g != nil {
+					add(g)
+				}
+			}
+			var ops [16]*ssa.Value
+			for _, op := range in.Operands(ops[:0]) {
+				if op == nil || *op == nil {
+					continue
+				}
+				switch v := (*op).(type) {
+				case *ssa.Function:
+					add(v)
+				case *ssa.MakeClosure:
+					add(v.Fn.(*ssa.Function))
+				}
+			}
+			if mc, ok := in.(*ssa.MakeClosure); ok {
+				add(mc.Fn.(*ssa.Function))
+			}
+		}
+	}
+	return out
+}
+
+var implCache = map[string][]*ssa.Function{}
+
+// implementers returns the package's concrete methods that can be the target of an interface invoke of m.
+func (w *World) implementers(m *types.Func) []*ssa.Function {
+	key := m.FullName() + "|" + m.Type().String()
+	if r, ok := implCache[key]; ok {
+		return r
+	}
+	var out []*ssa.Function
+	recvT := m.Type().(*types.Signature).Recv().Type()
+	iface, _ := recvT.Underlying().(*types.Interface)
+	for _, name := range w.Types.Scope().Names() {
+		tn, ok := w.Types.Scope().Lookup(name).(*types.TypeName)
+		if !ok || tn.IsAlias() {
+			continue
+		}
+		for _, t := range []types.Type{tn.Type(), types.NewPointer(tn.Type())} {
+			if _, isIface := t.Underlying().(*types.Interface); isIface {
+				continue
+			}
+			if iface != nil && !types.Implements(t, iface) {
+				continue
+			}
+			sel := w.Prog.MethodSets.MethodSet(t).Lookup(m.Pkg(), m.Name())
+			if sel == nil {
+				continue
+			}
+			if fn, ok := sel.Obj().(*types.Func); ok {
+				if g := w.byObj[fn]; g != nil {
+					out = append(out, g)
+				}
+			}
+		}
+	}
+	implCache[key] = out
+	return out
+}
+
+// Reach returns the package functions reachable from roots (roots included) in the package-local call graph.
+// cut(f) == true stops the traversal at f (f is not included and not descended into).
+func (w *World) Reach(roots []*ssa.Function, cut func(*ssa.Function) bool) []*ssa.Function {
+	seen := map[*ssa.Function]bool{}
+	var order []*ssa.Function
+	var visit func(f *ssa.Function, isRoot bool)
+	visit = func(f *ssa.Function, isRoot bool) {
+		if f == nil || seen[f] || !w.InPkg(f) {
+			return
+		}
+		if !isRoot && cut != nil && cut(f) {
+			return
+		}
+		seen[f] = true
+		order = append(order, f)
+		for _, g := range w.callees(f) {
+			visit(g, false)
+		}
+	}
+	for _, r := range roots {
+		visit(r, true)
+	}
+	return order
+}
+
+// globalsRead returns the package-level variables (of any package) loaded or address-taken in fns.
+func globalsTouched(fns []*ssa.Function) map[*ssa.Global]bool {
+	out := map[*ssa.Global]bool{}
+	for _, f := range fns {
+		for _, b := range f.Blocks {
+			for _, in := range b.Instrs {
+				var ops [16]*ssa.Value
+				for _, op := range in.Operands(ops[:0]) {
+					if op != nil && *op != nil {
+						if g, ok := (*op).(*ssa.Global); ok {
+							out[g] = true
+						}
+					}
+				}
+			}
+		}
+	}
+	return out
+}
